@@ -39,6 +39,7 @@ type dest struct {
 	rootReqs int
 	perStart map[int64]int
 	seen     map[int64]bool // indices that have reached the backend
+	outage   map[int64]int  // long quota outage: replies left per batch start
 	passAdds int
 	pass     int
 	cancel   func(reason string)
@@ -82,7 +83,7 @@ func reqDigest(r *trillian.AddSequencedLeavesRequest) [32]byte {
 }
 
 func newDest(c *Case, tr []truth, full *mtree.Tree, rec *recorder) *dest {
-	d := &dest{Log: reflog.New(treeID, 1), c: c, rec: rec, full: full, perStart: map[int64]int{}, seen: map[int64]bool{}}
+	d := &dest{Log: reflog.New(treeID, 1), c: c, rec: rec, full: full, perStart: map[int64]int{}, seen: map[int64]bool{}, outage: map[int64]int{}}
 	d.Log.Preorder = true
 	for i := 0; i < c.DstLen; i++ {
 		var pl preLeaf
@@ -146,6 +147,17 @@ func (d *dest) intercept(c reflog.Call) (proto.Message, error, bool) {
 		return nil, nil, false
 	}
 	d.mu.Lock()
+	if _, known := d.outage[first]; !known && len(d.outage) < d.c.LongQuotaStarts {
+		d.outage[first] = d.c.LongQuota
+	}
+	if d.outage[first] > 0 {
+		d.outage[first]--
+		d.passAdds++
+		d.mu.Unlock()
+		e := ev{Kind: "add", First: first, Served: len(req.Leaves), Digest: reqDigest(req), CallIdx: c.N, Status: int(codes.ResourceExhausted)}
+		d.rec.add(e)
+		return nil, status.Error(codes.ResourceExhausted, "quota exceeded: write tokens (long outage)"), true
+	}
 	k := d.perStart[first]
 	d.perStart[first] = k + 1
 	d.passAdds++
